@@ -22,7 +22,7 @@ EXTENDS PairHist
 
 \* The distance table of one frame, evaluated once (TLCEval forces the lazy function):
 \* T[i][j] = set of admissible squared minimum-image distances ({0} on the diagonal)
-D2Set(c, f, i, j) == Dist2Set(c.H, VSub(c.frames[f][j], c.frames[f][i]), c.ppp)
+D2Set(c, f, i, j) == Dist2Set(FrameH(c, f), VSub(c.frames[f][j], c.frames[f][i]), c.ppp)   \* the cell of frame f (PairHist!FrameH)
 DT(c, f) == TLCEval([i \in 1..NPart(c) |-> [j \in 1..NPart(c) |-> IF i = j THEN {0} ELSE D2Set(c, f, i, j)]])
 OthersT(T, i)    == (1..Len(T)) \ {i}
 AmbiguousT(T, i) == \E j \in OthersT(T, i) : Cardinality(T[i][j]) > 1 \/ 0 \in T[i][j]
